@@ -779,6 +779,19 @@ func main() {
 			scenarios = append(scenarios, comboScenario(p, bind, b))
 		}
 	}
+	// far more calls in flight than any plausible internal limit (connection caps, semaphores, pools):
+	// 80 callers through one client, every controller answering 0.6 T after being asked
+	for _, p := range paths {
+		calls := []call{}
+		for k := 0; k < 80; k++ {
+			calls = append(calls, call{op: "GetCardByID", args: argsFor("GetCardByID", k), ctrl: k % 3, path: p, delay: 6 * T / 10, client: 0})
+		}
+		sc := callScenario(fmt.Sprintf("80calls/bind=0/%s", p), 0, calls, 0, false)
+		sc.Deviations = 1
+		sc.Opt.Horizon = 20000
+		sc.Shards = 4
+		scenarios = append(scenarios, sc)
+	}
 	// the client's own listener sits on the client's bind port
 	for _, p := range paths {
 		for _, ip := range []string{"0.0.0.0", "192.168.1.2"} {
@@ -797,7 +810,7 @@ func main() {
 	if r.Worker == "" && r.Replay == "" {
 		racePass(r)
 	}
-	r.Rule("2 (thorough also 3) harness threads x {bind port 0, fixed} x {one shared client, two clients (also: same fixed port on the wildcard and on a specific local address)} x {same, different controller} x paths {udp,tcp,broadcast}^2 x reply delays {0,0.4T,0.8T}^2 x start offset {0,0.3T} x 3 operation pairs; every one of the 31 directed operations concurrently with itself and with PutCard (<= 1 preemption; quick: connected-UDP path only); a failing call (silent controller, stalled / refused / reset TCP) followed by and concurrent with calls that must succeed; three staggered calls on one fixed port; discovery alongside a directed call; the listener, discovery and a directed call at once through one client; a call through a client whose own listener sits on its bind port while the controller pushes an event; Listen with two events and the stop signal at 5 offsets; two threads x two sequential calls; for each scenario ALL interleavings with <= 2 preemptions (thorough: the two-call scenarios under ALL interleavings without bound, three-call families with <= 3 preemptions). distinct = distinct per-call outcome labels observed")
+	r.Rule("2 (thorough also 3) harness threads x {bind port 0, fixed} x {one shared client, two clients (also: same fixed port on the wildcard and on a specific local address)} x {same, different controller} x paths {udp,tcp,broadcast}^2 x reply delays {0,0.4T,0.8T}^2 x start offset {0,0.3T} x 3 operation pairs; every one of the 31 directed operations concurrently with itself and with PutCard (<= 1 preemption; quick: connected-UDP path only); a failing call (silent controller, stalled / refused / reset TCP) followed by and concurrent with calls that must succeed; three staggered calls on one fixed port; 80 concurrent calls through one client (at most one non-default scheduling choice); discovery alongside a directed call; the listener, discovery and a directed call at once through one client; a call through a client whose own listener sits on its bind port while the controller pushes an event; Listen with two events and the stop signal at 5 offsets; two threads x two sequential calls; for each scenario ALL interleavings with <= 2 preemptions (thorough: the two-call scenarios under ALL interleavings without bound, three-call families with <= 3 preemptions). distinct = distinct per-call outcome labels observed")
 	r.Assume("sequentially consistent memory; scheduling points at mutex, channel, socket and sleep operations; unsynchronised accesses to locals shared with goroutine closures and to package-level variables of every package of the module (uhppote, types, messages, encoding/*) are caught by the vector-clock detector; struct fields and heap objects reached through pointers only by the free-running -race pass")
 	r.Assume("the simulated network orders consecutive operations on one socket (fd mutex atomics), as the real net package does")
 	r.Finish()
